@@ -4,108 +4,57 @@ import Proofs.Lemmas.HeapSpecLocal
 
 Property theorems only.  `Model.Heap` mirrors how origami stores, copies and mutates
 arrays (cells and array objects with identities; an in-place mutation reaches every
-holder of the mutated identity); `Cfg.fixed` is the tree with the C06 fixes,
-`Cfg.pinned` the tree before them.  `Spec.Val` is what a user relies on: every name
-denotes an immutable tree and a write rebuilds the tree of the written name only.
-`abs` forgets all identities.
+holder of the mutated identity); `Cfg.fixed` is the tree with the C06 fixes, `Cfg.shallow`
+the tree before the last of them (copies share their inner array objects), `Cfg.pinned`
+the tree before all of them.  `Spec.Val` is what a user relies on: every name denotes an
+immutable tree and a write rebuilds the tree of the written name only.  `abs` forgets all
+identities.
 
 Programs are lists of statements over any number of variables (`$x = rhs` — which is
 also by-value parameter binding and `$x = f(…)` —, `$x->p = rhs`, `place[k] = rhs`,
 `place[] = rhs`, `unset(place[k])`, `place->push/pop/shift/unshift/sort`, `new`,
-`clone`, `$x = &$y`), right-hand sides are scalars, array literals of any depth (whose
-items may read places), reads of places of any depth, and **call results** (`RV.call p`:
-the value of a call that returns what place `p` holds — a getter, a function returning
-a static local / a global, an element of a by-value copy). A call result is the
-owner's own pointer (`return` does not copy); it reaches the next by-value boundary
-(`f($o->get())`, `new K($o->get())`, `$q->p = $o->get()`, `$c[] = $o->get()`) with no
-variable in between — a *composite* copy route. The theorems below cover these routes
-because `RV` ranges over them; `C06_call_result_copy_needed` shows that the copy made
-at such a boundary is necessary.
+`clone`, `$x = &$y`); a *place* is `$x`, `$x->p` or `place[k]` to **any depth**
+(`$x[i][j][] = …`; missing keys on the way are created by a store, as PHP does);
+right-hand sides are scalars, array literals of any depth (whose items may read places),
+reads of places of any depth, and **call results** (`RV.call p`: the value of a call that
+returns what place `p` holds — a getter, a function returning a static local / a global,
+an element of a by-value copy). A call result is the owner's own pointer (`return` does
+not copy); it reaches the next by-value boundary (`f($o->get())`, `new K($o->get())`,
+`$q->p = $o->get()`, `$c[] = $o->get()`) with no variable in between — a *composite* copy
+route. The theorems below cover these routes because `RV` ranges over them;
+`C06_call_result_copy_needed` shows that the copy made at such a boundary is necessary.
 
-**Full statement** (what the property asks for; *false* on this tree — see
-`C06_nested_counterexample`):
-
-    theorem C06_value_semantics (nv : Nat) (ops : List Op) :
-        abs (Model.Heap.run .fixed nv ops) = Spec.Val.run nv ops
-
-What is proved instead is the statement for every program whose *writes* go to the
-array a name holds (`FlatWrites`: `$x[k] = …`, `$o->p[] = …`, `unset($x[k])`,
-`$x->sort()` …), with arbitrary nesting in the *values* that are copied, stored and
-read.  Writes into an array nested inside the value of a name (`$x[i][j] = …`) are
-excluded: inner array objects are shared by copies on this tree (known findings
-`leak:<route>:nested…`).
+The statement holds at full strength since the copy made at every copy point
+(`CloneArrayValue` / `CloneObjectValue`) is recursive (fix C06-6): no array object is
+reachable from two places, so the in-place mutation the interpreter performs for a nested
+write touches one name only.  With the shallow copy the statement was false
+(`C06_shallow_nested_counterexample`, replayed on the real code by the harness).
 -/
 namespace C06
 open Model.Heap Proofs.Heap
 open Spec.Val (abs eraseVal Tree)
 
-/-- the invariant of the simulation (`Proofs.Heap.Inv`): no two holders (variable cells,
-object properties) point at the same array object, no holder's array object also occurs
-inside a value, identities in use are below the allocator -/
-abbrev NoUnintendedSharing (s : St) : Prop := Proofs.Heap.Inv s
+/-- the invariant of the simulation (`Proofs.Heap.Inv`): every array object occurs at most
+once in the whole state — no two variables / properties / array elements reach the same
+array object — and identities in use are below the allocator -/
+abbrev NoSharing (s : St) : Prop := Proofs.Heap.Inv s
 
-/-- **Value semantics (partial: writes at the root of a name).**  For every number of
-variables and every program whose writes are flat, the values of all names after the
-run on the implementation model are exactly the values the immutable-tree semantics
-gives — whatever was copied by assignment, parameter binding, return, property store /
-read, element store / read, array literal or `clone` in between. -/
-theorem C06_value_semantics_partial (nv : Nat) (ops : List Op) (hf : FlatWrites ops) :
+/-- **Value semantics.**  For every number of variables and every program — writes through
+places of any depth, missing intermediate keys created on the way — the values of all names
+after the run on the implementation model are exactly the values the immutable-tree
+semantics gives, whatever was copied by assignment, parameter binding, return, property
+store / read, element store / read, array literal or `clone` in between. -/
+theorem C06_value_semantics (nv : Nat) (ops : List Op) :
     abs (run .fixed nv ops) = Spec.Val.run nv ops :=
-  (run_sim nv ops hf).2
+  (run_sim nv ops).2
 
-/-- **The invariant behind it** holds in every reachable state of such a program. -/
-theorem C06_no_unintended_sharing (nv : Nat) (ops : List Op) (hf : FlatWrites ops) :
-    NoUnintendedSharing (run .fixed nv ops) :=
-  (run_sim nv ops hf).1
+/-- **The invariant behind it** holds in every reachable state. -/
+theorem C06_no_sharing (nv : Nat) (ops : List Op) : NoSharing (run .fixed nv ops) :=
+  (run_sim nv ops).1
 
-/-- **A write through one name is invisible through every other name.**  After any
-flat program, a mutating statement `w` (element store, append, unset, push / pop /
-shift / unshift / sort) through `$x` changes no object and no variable other than the
-ones `&`-bound to `$x`; through `$x->p` it changes no variable and no property other
-than property `p` of the object `$x` holds. -/
-theorem C06_write_invisible (nv : Nat) (ops : List Op) (hf : FlatWrites ops) (w : Op) (b : Place)
-    (hw : w.target = some b) :
-    match b with
-    | .var x =>
-      (abs (run .fixed nv (ops ++ [w]))).objs = (abs (run .fixed nv ops)).objs ∧
-      ∀ y, (run .fixed nv ops).names[y]? ≠ (run .fixed nv ops).names[x]? →
-        (abs (run .fixed nv (ops ++ [w]))).varVal? y = (abs (run .fixed nv ops)).varVal? y
-    | .prop x p =>
-      (∀ y, (abs (run .fixed nv (ops ++ [w]))).varVal? y = (abs (run .fixed nv ops)).varVal? y) ∧
-      ∀ h p', ((run .fixed nv ops).varObj? x ≠ some h ∨ p' ≠ p) →
-        (abs (run .fixed nv (ops ++ [w]))).propVal? h p' = (abs (run .fixed nv ops)).propVal? h p'
-    | .idx _ _ => True := by
-  cases b with
-  | idx b k => trivial
-  | var x =>
-    dsimp only
-    have hfw := flat_append ops hf [w] (by intro o ho; simp at ho; subst ho; exact flat_of_target _ _ hw rfl)
-    rw [C06_value_semantics_partial nv _ hfw, C06_value_semantics_partial nv ops hf]
-    have hn : (run .fixed nv ops).names = (Spec.Val.run nv ops).names := by
-      rw [← C06_value_semantics_partial nv ops hf]; rfl
-    rw [hn]
-    have : Spec.Val.run nv (ops ++ [w]) = Spec.Val.step (Spec.Val.run nv ops) w := by
-      simp [Spec.Val.run, List.foldl_append]
-    rw [this]
-    exact spec_write_var _ w x hw
-  | prop x p =>
-    dsimp only
-    have hfw := flat_append ops hf [w] (by intro o ho; simp at ho; subst ho; exact flat_of_target _ _ hw rfl)
-    rw [C06_value_semantics_partial nv _ hfw, C06_value_semantics_partial nv ops hf]
-    have ho : (run .fixed nv ops).varObj? x = (Spec.Val.run nv ops).varObj? x := by
-      rw [← C06_value_semantics_partial nv ops hf, abs_varObj?]
-    rw [ho]
-    have : Spec.Val.run nv (ops ++ [w]) = Spec.Val.step (Spec.Val.run nv ops) w := by
-      simp [Spec.Val.run, List.foldl_append]
-    rw [this]
-    obtain ⟨h1, h2, _⟩ := spec_write_prop (Spec.Val.run nv ops) w x p hw
-    exact ⟨h1, h2⟩
-
-/-- **The reference semantics has the property at full strength.**  In `Spec.Val` a
-mutating statement through a place of *any* depth (`$x[i][j][] = …`, `unset($o->p[k][l])`,
-`$x[i]->push(…)`) changes the name the place is rooted in and nothing else — so the only
-gap between the implementation and the property is the refinement gap closed, for
-flat writes, by `C06_value_semantics_partial`. -/
+/-- **The reference semantics has the property.**  In `Spec.Val` a mutating statement
+through a place of any depth (`$x[i][j][] = …`, `unset($o->p[k][l])`, `$x[i]->push(…)`)
+changes the name the place is rooted in and nothing else. -/
 theorem C06_spec_write_local (s : Spec.Val.St) (w : Op) (b : Place) (hw : w.target = some b) :
     match b.root with
     | .var x =>
@@ -115,53 +64,76 @@ theorem C06_spec_write_local (s : Spec.Val.St) (w : Op) (b : Place) (hw : w.targ
       (∀ y, (Spec.Val.step s w).varVal? y = s.varVal? y) ∧
       ∀ h p', (s.varObj? x ≠ some h ∨ p' ≠ p) → (Spec.Val.step s w).propVal? h p' = s.propVal? h p'
     | .idx _ _ => True := by
-  rcases spec_step_target s w b hw with h | ⟨g, h⟩
+  rcases spec_step_target s w b hw with h | ⟨c, g, h⟩
   · rw [h]; cases b.root <;> simp
-  · exact spec_modify_local s _ b _ h
+  · exact spec_modify_local s _ c b _ h
 
-/-- **`clone` yields an independent object.**  After any flat program in which `$y`
-holds the (live) object `h`: execute `$x = clone $y;` and then any mutating statement
-through a property of the clone — every property of the original object `h`, array-valued
-ones included, is what it was.  Symmetrically (when `$x` is not `&`-bound to `$y`) a
-write through a property of the original leaves the clone's properties alone. -/
-theorem C06_clone_independent (nv : Nat) (ops : List Op) (hf : FlatWrites ops) (x y p h : Nat) (w : Op)
-    (hy : (run .fixed nv ops).varObj? y = some h) (hlive : h < (run .fixed nv ops).objs.length) :
-    (w.target = some (.prop x p) →
-      (abs (run .fixed nv (ops ++ [.clone x y, w]))).objs[h]? = (abs (run .fixed nv ops)).objs[h]?) ∧
-    (w.target = some (.prop y p) → (run .fixed nv ops).names[y]? ≠ (run .fixed nv ops).names[x]? →
-      (abs (run .fixed nv (ops ++ [.clone x y, w]))).objs[(run .fixed nv ops).objs.length]? =
-        (abs (run .fixed nv (ops ++ [.clone x y]))).objs[(run .fixed nv ops).objs.length]?) := by
-  have hs := C06_value_semantics_partial nv ops hf
+/-- **A write through one name is invisible through every other name.**  After any
+program, a mutating statement `w` (element store, append, unset, push / pop / shift /
+unshift / sort) through a place of any depth rooted in `$x` changes no object and no
+variable other than the ones `&`-bound to `$x`; through a place rooted in `$x->p` it
+changes no variable and no property other than property `p` of the object `$x` holds. -/
+theorem C06_write_invisible (nv : Nat) (ops : List Op) (w : Op) (b : Place) (hw : w.target = some b) :
+    match b.root with
+    | .var x =>
+      (abs (run .fixed nv (ops ++ [w]))).objs = (abs (run .fixed nv ops)).objs ∧
+      ∀ y, (run .fixed nv ops).names[y]? ≠ (run .fixed nv ops).names[x]? →
+        (abs (run .fixed nv (ops ++ [w]))).varVal? y = (abs (run .fixed nv ops)).varVal? y
+    | .prop x p =>
+      (∀ y, (abs (run .fixed nv (ops ++ [w]))).varVal? y = (abs (run .fixed nv ops)).varVal? y) ∧
+      ∀ h p', ((run .fixed nv ops).varObj? x ≠ some h ∨ p' ≠ p) →
+        (abs (run .fixed nv (ops ++ [w]))).propVal? h p' = (abs (run .fixed nv ops)).propVal? h p'
+    | .idx _ _ => True := by
+  have hn : (run .fixed nv ops).names = (Spec.Val.run nv ops).names := by
+    rw [← C06_value_semantics nv ops]; rfl
+  have ho : ∀ x, (run .fixed nv ops).varObj? x = (Spec.Val.run nv ops).varObj? x := by
+    intro x; rw [← C06_value_semantics nv ops, abs_varObj?]
+  have hstep : Spec.Val.run nv (ops ++ [w]) = Spec.Val.step (Spec.Val.run nv ops) w := by
+    simp [Spec.Val.run, List.foldl_append]
+  have := C06_spec_write_local (Spec.Val.run nv ops) w b hw
+  rw [C06_value_semantics nv (ops ++ [w]), C06_value_semantics nv ops, hstep, hn]
+  cases hb : b.root with
+  | idx b' k => trivial
+  | var x => rw [hb] at this; exact this
+  | prop x p => rw [hb] at this; simp only [ho]; exact this
+
+/-- **`clone` yields an independent object.**  After any program in which `$y` holds the
+(live) object `h`: execute `$x = clone $y;` and then any mutating statement through a place
+of any depth below a property of the clone (`$x->p[i][] = …`) — every property of the
+original object `h`, array-valued ones included, is what it was.  Symmetrically (when `$x`
+is not `&`-bound to `$y`) a write below a property of the original leaves every property of
+the clone alone. -/
+theorem C06_clone_independent (nv : Nat) (ops : List Op) (x y p h : Nat) (w : Op) (b : Place)
+    (hy : (run .fixed nv ops).varObj? y = some h) (hlive : h < (run .fixed nv ops).objs.length)
+    (hw : w.target = some b) :
+    (b.root = .prop x p → ∀ p',
+      (abs (run .fixed nv (ops ++ [.clone x y, w]))).propVal? h p' = (abs (run .fixed nv ops)).propVal? h p') ∧
+    (b.root = .prop y p → (run .fixed nv ops).names[y]? ≠ (run .fixed nv ops).names[x]? → ∀ p',
+      (abs (run .fixed nv (ops ++ [.clone x y, w]))).propVal? (run .fixed nv ops).objs.length p' =
+        (abs (run .fixed nv (ops ++ [.clone x y]))).propVal? (run .fixed nv ops).objs.length p') := by
+  have hs := C06_value_semantics nv ops
   have hy' : (Spec.Val.run nv ops).varObj? y = some h := by rw [← hs, abs_varObj?]; exact hy
   have hlen : (Spec.Val.run nv ops).objs.length = (run .fixed nv ops).objs.length := by
     rw [← hs]; simp [abs]
   have hl' : h < (Spec.Val.run nv ops).objs.length := by omega
   have hnames : (run .fixed nv ops).names = (Spec.Val.run nv ops).names := by rw [← hs]; rfl
-  have r2 : ∀ w', Spec.Val.run nv (ops ++ [.clone x y, w']) =
-      Spec.Val.step (Spec.Val.step (Spec.Val.run nv ops) (.clone x y)) w' := by
-    intro w'; simp [Spec.Val.run, List.foldl_append]
+  have r2 : Spec.Val.run nv (ops ++ [.clone x y, w]) =
+      Spec.Val.step (Spec.Val.step (Spec.Val.run nv ops) (.clone x y)) w := by
+    simp [Spec.Val.run, List.foldl_append]
   have r1 : Spec.Val.run nv (ops ++ [.clone x y]) = Spec.Val.step (Spec.Val.run nv ops) (.clone x y) := by
     simp [Spec.Val.run, List.foldl_append]
   obtain ⟨c1, c2, c3, c4⟩ := spec_clone (Spec.Val.run nv ops) x y h hy' hl'
+  have hloc := C06_spec_write_local (Spec.Val.step (Spec.Val.run nv ops) (.clone x y)) w b hw
+  rw [C06_value_semantics nv (ops ++ [Op.clone x y, w]), C06_value_semantics nv (ops ++ [Op.clone x y]), hs, r2, r1, ← hlen]
   constructor
-  · intro hw
-    have hfw := flat_append ops hf [.clone x y, w] (by
-      intro o ho; simp at ho; rcases ho with e | e
-      · subst e; rfl
-      · subst e; exact flat_of_target _ _ hw rfl)
-    rw [C06_value_semantics_partial nv _ hfw, hs, r2]
-    obtain ⟨_, _, h3⟩ := spec_write_prop (Spec.Val.step (Spec.Val.run nv ops) (.clone x y)) w x p hw
-    rw [h3 h (by rcases c3 with e | e <;> rw [e] <;> simp <;> omega), c1]
-    simp [List.getElem?_append_left hl']
-  · intro hw hne
-    have hfw := flat_append ops hf [.clone x y, w] (by
-      intro o ho; simp at ho; rcases ho with e | e
-      · subst e; rfl
-      · subst e; exact flat_of_target _ _ hw rfl)
-    have hfc := flat_append ops hf [.clone x y] (by intro o ho; simp at ho; subst ho; rfl)
-    rw [C06_value_semantics_partial nv _ hfw, C06_value_semantics_partial nv _ hfc, r2, r1, ← hlen]
-    obtain ⟨_, _, h3⟩ := spec_write_prop (Spec.Val.step (Spec.Val.run nv ops) (.clone x y)) w y p hw
-    apply h3
+  · intro hb p'
+    rw [hb] at hloc
+    rw [hloc.2 h p' (Or.inl (by rcases c3 with e | e <;> rw [e] <;> simp <;> omega))]
+    simp only [Spec.Val.St.propVal?, c1, List.getElem?_append_left hl']
+  · intro hb hne p'
+    rw [hb] at hloc
+    apply hloc.2
+    left
     -- `$y` still holds the original object
     have hyv : (Spec.Val.step (Spec.Val.run nv ops) (.clone x y)).varObj? y = some h := by
       simp only [Spec.Val.St.varObj?]
@@ -220,20 +192,35 @@ def elemWitness : List Op :=
   [.setVar 1 (.lit (.arr [(.pos, .int 0), (.pos, .int 0)])), .setVar 0 (.lit lit123),
    .setIdx (.var 1) (some (.int 1)) (.rd (.var 0)), .setIdx (.var 0) none (.int 9)]
 
-/-- **The full statement is false on this tree**: a nested store through the copy shows
-through the original (the inner array object is shared by the two copies). -/
-theorem C06_nested_counterexample :
-    ¬ (∀ (nv : Nat) (ops : List Op), abs (run .fixed nv ops) = Spec.Val.run nv ops) := by
+/-- **With the shallow copy the statement was false**: `$b = $a; $b[0][0] = 9;` changed
+`$a` — `CloneArrayValue` copied the slot list only, the two copies shared the inner array
+object, and the nested store mutates that object in place. -/
+theorem C06_shallow_nested_counterexample :
+    ¬ (∀ (nv : Nat) (ops : List Op), abs (run .shallow nv ops) = Spec.Val.run nv ops) := by
   intro h
   have := congrArg (fun s => obs s 0) (h 2 nestedWitness)
   revert this
   decide
 
-/-- outcomes of the nested witness, as the harness replays them: `$a` reads `9,2,3` on
-the model (and on the real code), `1,2,3` under value semantics -/
+/-- outcomes of the nested witness, as the harness replays them: `$a` reads `1,2,3` on the
+model of this tree (and on the real code) and under value semantics, `9,2,3` with the
+shallow copy; `$b` reads `9,2,3` everywhere -/
 theorem C06_nested_witness_outcomes :
-    obs (abs (run .fixed 2 nestedWitness)) 0 = [9, 2, 3] ∧ obs (Spec.Val.run 2 nestedWitness) 0 = [1, 2, 3] ∧
-    obs (abs (run .fixed 2 nestedWitness)) 1 = [9, 2, 3] ∧ obs (Spec.Val.run 2 nestedWitness) 1 = [9, 2, 3] := by
+    obs (abs (run .fixed 2 nestedWitness)) 0 = [1, 2, 3] ∧ obs (Spec.Val.run 2 nestedWitness) 0 = [1, 2, 3] ∧
+    obs (abs (run .shallow 2 nestedWitness)) 0 = [9, 2, 3] ∧
+    obs (abs (run .fixed 2 nestedWitness)) 1 = [9, 2, 3] ∧ obs (abs (run .shallow 2 nestedWitness)) 1 = [9, 2, 3] := by
+  decide
+
+/-- `$a = [[1]]; $a[0][] = $a;` -/
+def selfStoreWitness : List Op :=
+  [.setVar 0 (.lit (.arr [(.pos, .arr [(.pos, .int 1)])])),
+   .setIdx (.idx (.var 0) (.int 0)) none (.rd (.var 0))]
+
+/-- **A copy of an array stored into one of its own inner arrays is a finite value.**
+With the shallow copy the stored copy shared `$a[0]`, the array it was appended to — a
+cyclic value, fatal to print; now `$a` is `[[1, [[1]]]]`, as under value semantics. -/
+theorem C06_self_store_outcomes :
+    obs (abs (run .fixed 1 selfStoreWitness)) 0 = [1, 1] ∧ obs (Spec.Val.run 1 selfStoreWitness) 0 = [1, 1] := by
   decide
 
 /-- **Before the fixes the flat case was false as well**: `$b = $a; $b[0] = 9;` changed
@@ -301,38 +288,46 @@ theorem C06_call_result_is_read (s : St) (x p : Nat) (b pl : Place) (k : Option 
 
 /-! ### Non-vacuity -/
 
-/- a flat program with nested values, every route and every kind of flat write:
+/- a program with nested values, every route and every kind of write, at the root of a name
+   and inside inner arrays, with keys created on the way:
    literal, copy, property store/read, element store of an array, unset, methods, clone, `&` -/
 def prog₀ : List Op :=
-  [.setVar 0 (.lit litNested), .setVar 1 (.rd (.var 0)), .setIdx (.var 1) (some (.int 0)) (.int 9),
-   .new 2, .setProp 2 0 (.rd (.var 0)), .setIdx (.prop 2 0) none (.rd (.idx (.var 0) (.int 1))),
-   .setIdx (.var 0) (some (.str 0)) (.lit (.arr [(.pos, .rd (.var 1))])), .unset (.var 1) (.int 1),
-   .meth (.prop 2 0) (.push 5), .clone 3 2, .meth (.prop 3 0) .shift, .ref 1 0, .meth (.var 1) .pop]
+  [.setVar 0 (.lit litNested), .setVar 1 (.rd (.var 0)), .setIdx (.idx (.var 1) (.int 0)) (some (.int 0)) (.int 9),
+   .new 2, .setProp 2 0 (.rd (.var 0)), .setIdx (.idx (.prop 2 0) (.int 1)) none (.rd (.idx (.var 0) (.int 1))),
+   .setIdx (.idx (.idx (.var 0) (.str 0)) (.int 5)) (some (.str 1)) (.lit (.arr [(.pos, .rd (.var 1))])),
+   .unset (.idx (.var 1) (.int 0)) (.int 1), .meth (.idx (.prop 2 0) (.int 0)) (.push 5), .clone 3 2,
+   .meth (.idx (.prop 3 0) (.int 0)) .shift, .ref 1 0, .meth (.idx (.var 1) (.int 1)) .pop]
 
-example : FlatWrites prog₀ := by decide
-example : obs (Spec.Val.run 4 prog₀) 0 = [1, 2, 3] ∧ obs (abs (run .fixed 4 prog₀)) 0 = [1, 2, 3] ∧
-    obs (abs (run .fixed 4 prog₀)) 1 = [1, 2, 3] := by decide
+example : ¬ FlatWrites prog₀ := by decide
+example : obs (Spec.Val.run 4 prog₀) 0 = [1, 2, 9, 2, 3] ∧ obs (abs (run .fixed 4 prog₀)) 0 = [1, 2, 9, 2, 3] ∧
+    obs (abs (run .fixed 4 prog₀)) 1 = [1, 2, 9, 2, 3] ∧ obsProp (abs (run .fixed 4 prog₀)) 0 0 = [1, 2, 5, 3, 3] ∧
+    obsProp (abs (run .fixed 4 prog₀)) 1 0 = [2, 5, 3, 3] := by decide +kernel
+/- the shallow copy gets the same program wrong: `$v0` reads 5,3,5,3 -/
+example : obs (abs (run .shallow 4 prog₀)) 0 ≠ obs (Spec.Val.run 4 prog₀) 0 := by decide +kernel
 /- the hypotheses of `C06_write_invisible`, `C06_clone_independent`, `C06_reference_shared` are satisfiable -/
-example : (Op.meth (.prop 3 0) .shift).target = some (.prop 3 0) := rfl
-example : (run .fixed 4 (prog₀.take 9)).varObj? 2 = some 0 ∧ 0 < (run .fixed 4 (prog₀.take 9)).objs.length := by decide
-example : ∀ op ∈ [Op.meth (.var 1) .pop], op.isRef = false := by decide
+example : (Op.meth (.idx (.prop 3 0) (.int 0)) .shift).target = some (.idx (.prop 3 0) (.int 0)) ∧
+    (Place.idx (.prop 3 0) (.int 0)).root = .prop 3 0 := ⟨rfl, rfl⟩
+example : (run .fixed 4 (prog₀.take 9)).varObj? 2 = some 0 ∧ 0 < (run .fixed 4 (prog₀.take 9)).objs.length := by decide +kernel
+example : ∀ op ∈ [Op.meth (.idx (.var 1) (.int 1)) .pop], op.isRef = false := by decide
 /- the reference really shares: a write through `$v1` is read through `$v0` -/
 example : obs (abs (run .fixed 2 [.setVar 0 (.lit lit123), .ref 1 0, .setIdx (.var 1) (some (.int 0)) (.int 9)])) 0 = [9, 2, 3] := by
   decide
-/- `C06_spec_write_local` at depth 2: the spec leaves `$v0` alone where the implementation does not -/
+/- `C06_spec_write_local` / `C06_write_invisible` at depth 2 -/
 example : (Op.setIdx (.idx (.var 1) (.int 0)) (some (.int 0)) (.int 9)).target = some (.idx (.var 1) (.int 0)) ∧
     (Place.idx (.var 1) (.int 0)).root = .var 1 := ⟨rfl, rfl⟩
-/- `FlatWrites` excludes the nested witness -/
-example : ¬ FlatWrites nestedWitness := by decide
-/- composite routes inside a flat program: getter result into a parameter, a property, an element;
-   an element of a copy into a parameter — value semantics on the model, as the theorem says -/
+/- the invariant is not trivially true: the shallow copy breaks it on the nested witness
+   (after `$b = $a` the inner array object of `$a[0]` occurs twice), the recursive copy keeps it -/
+example : scnt (run .shallow 2 (nestedWitness.take 2)) 5 = 2 := by decide +kernel
+example : ∀ a, a < 40 → scnt (run .fixed 2 (nestedWitness.take 2)) a ≤ 1 := by decide +kernel
+example : scnt (run .fixed 2 (nestedWitness.take 2)) 13 = 1 := by decide +kernel
+/- composite routes: getter result into a parameter, a property, an element; an element of a copy
+   into a parameter, with a nested write in the callee — value semantics on the model, as the theorem says -/
 def prog₁ : List Op :=
-  [.new 0, .setProp 0 0 (.lit litNested), .setVar 1 (.call (.prop 0 0)), .setIdx (.var 1) none (.int 9),
-   .new 2, .setProp 2 1 (.call (.prop 0 0)), .meth (.prop 2 1) .pop,
+  [.new 0, .setProp 0 0 (.lit litNested), .setVar 1 (.call (.prop 0 0)), .setIdx (.idx (.var 1) (.int 0)) none (.int 9),
+   .new 2, .setProp 2 1 (.call (.prop 0 0)), .meth (.idx (.prop 2 1) (.int 1)) .pop,
    .setVar 3 (.lit (.arr [(.pos, .int 0)])), .setIdx (.var 3) none (.call (.prop 0 0)),
-   .setVar 1 (.call (.idx (.var 3) (.int 1))), .meth (.var 1) .shift, .unset (.prop 0 0) (.int 0)]
-example : FlatWrites prog₁ := by decide
+   .setVar 1 (.call (.idx (.var 3) (.int 1))), .meth (.idx (.var 1) (.int 0)) .shift, .unset (.prop 0 0) (.int 0)]
 example : obsProp (abs (run .fixed 4 prog₁)) 0 0 = [3] ∧ obsProp (Spec.Val.run 4 prog₁) 0 0 = [3] ∧
-    obs (abs (run .fixed 4 prog₁)) 3 = [0, 1, 2, 3] ∧ obs (abs (run .fixed 4 prog₁)) 1 = [3] := by decide
+    obs (abs (run .fixed 4 prog₁)) 3 = [0, 1, 2, 3] ∧ obs (abs (run .fixed 4 prog₁)) 1 = [2, 3] := by decide +kernel
 
 end C06
